@@ -242,6 +242,7 @@ func jsonNumCase(c *jsonCase) (what string, want, got interface{}) {
 }
 
 type JSink struct {
+	Tmp string
 	Sink
 	A, Bv int64
 	T     bool
@@ -349,6 +350,10 @@ func cmdJSONReplay(args []string) {
 	defer of.Close()
 	w := bufio.NewWriter(of)
 	defer w.Flush()
+	// every process first translates a rule whose operands are the numbers and booleans that some string constants of the cases
+	// look like: what a later operand is translated to may not depend on what was translated before
+	_, _ = pkg.ParseJSONRule([]byte(`{"name":"Warm","desc":"w","salience":0,"when":{"and":[{"eq":[{"const":4},{"const":2}]},{"eq":[{"const":true},{"const":false}]},
+		{"eq":[{"const":3},{"const":6}]},{"eq":[{"const":10},{"plus":[{"const":4},{"const":6}]}]}]},"then":[{"call":["Complete"]}]}`))
 	sc := bufio.NewScanner(f)
 	sc.Buffer(make([]byte, 1<<20), 1<<24)
 	n, bad, evals := 0, 0, 0
@@ -528,8 +533,9 @@ func cmdJSONReplay(args []string) {
 			jobs = append(jobs, p)
 		case "jsonstr":
 			// the string as a constant argument, in a condition, and as the description
+			// (the constant also as the value of a set action and as an operand of a comparison with what a fact holds)
 			rule := J{"name": name, "desc": c.Str, "salience": sal, "when": J{"eq": []interface{}{J{"const": c.Str}, J{"const": c.Str}}},
-				"then": []interface{}{J{"call": []interface{}{"S.PutS", key, J{"const": c.Str}}}, retract}}
+				"then": []interface{}{J{"set": []interface{}{"S.Tmp", J{"const": c.Str}}}, J{"call": []interface{}{"S.PutS", key, "S.Tmp"}}, retract}}
 			jobs = append(jobs, pending{key: key, rule: rule, c: c, raw: raw, desc: c.Str, sal: sal})
 		case "jsonset", "jsonnum":
 			func() {
